@@ -47,6 +47,21 @@ func checkC11(c *Check) {
 			nw = f
 		}
 	}
+	if nw == nil {
+		// by role: the constructor of the text writer — a function of the package
+		// whose first parameter is an io.Writer and whose result is a type of the package
+		for _, f := range p.RepoFuncs() {
+			if fnPkgPath(f) != importerPkg || f.Parent() != nil || f.Signature.Recv() != nil || f.Signature.Params().Len() == 0 || f.Signature.Results().Len() != 1 {
+				continue
+			}
+			if !typeIs(f.Signature.Params().At(0).Type(), "io", "Writer") {
+				continue
+			}
+			if rn := namedOf(f.Signature.Results().At(0).Type()); rn != nil && rn.Obj().Pkg() != nil && rn.Obj().Pkg().Path() == importerPkg {
+				nw = f
+			}
+		}
+	}
 	n := 0
 	if nw != nil {
 		for _, f := range p.RepoFuncs() {
@@ -135,7 +150,9 @@ func c11Builtins(c *Check) {
 	// and the escaping function consults that list
 	uses := false
 	for _, f := range p.RepoFuncs() {
-		if fnPkgPath(f) == importerPkg && f.Name() == "getSyslTypeName" {
+		// (whatever the escaping function is called: a function of the importer that
+		// returns a string and reads the list)
+		if fnPkgPath(f) == importerPkg && f.Signature.Results().Len() == 1 && isStringType(f.Signature.Results().At(0).Type()) {
 			eachInstr(f, func(_ *ssa.BasicBlock, i ssa.Instruction) {
 				for _, op := range i.Operands(nil) {
 					if g, ok := (*op).(*ssa.Global); ok && g.Name() == "BuiltInTypes" {
@@ -145,7 +162,7 @@ func c11Builtins(c *Check) {
 			})
 		}
 	}
-	c.Cond(uses, "BUILTIN-LIST", "getSyslTypeName consults the list", "pkg/importer/utils.go", "the type-name escaping rule reads syslutil.BuiltInTypes", "the type-name escaping rule no longer consults syslutil.BuiltInTypes")
+	c.Cond(uses, "BUILTIN-LIST", "getSyslTypeName consults the list", "pkg/importer/utils.go", "the type-name escaping rule (a string-valued function of the importer) reads syslutil.BuiltInTypes", "no string-valued function of the importer consults syslutil.BuiltInTypes any more: the type-name escaping rule has lost its list")
 }
 
 func checkC12(c *Check) {
@@ -182,6 +199,16 @@ func checkC12(c *Check) {
 	for _, f := range methodsOfType(p, "pkg/exporter", "OpenAPI3Exporter") {
 		if f.Name() == "exportType" {
 			exportType = f
+		}
+	}
+	if exportType == nil && wType != nil {
+		// by role: the method of the exporter that distinguishes most kinds of the
+		// simplified type
+		best := 0
+		for _, f := range methodsOfType(p, "pkg/exporter", "OpenAPI3Exporter") {
+			if k := len(switchConstsOnField(f, wType, "Type")); k > best {
+				best, exportType = k, f
+			}
 		}
 	}
 	if wType == nil || exportType == nil {
